@@ -1,11 +1,11 @@
 #!/bin/sh
-# MANIFEST.setup_cmd: build the whole framework offline from files on disk.
-set -e
+# MANIFEST.setup_cmd: build the whole framework offline from files on disk.  Never fails as a whole: whatever part does not
+# build is reported by the check that needs it (a check rebuilds what it needs itself).
 cd "$(dirname "$0")"
 export CARGO_NET_OFFLINE=true RUST_BACKTRACE=0
 mkdir -p .cache evidence extract/gen
 python3 - <<'PY'
-import sys, os
+import sys, os, glob, traceback
 sys.path.insert(0, "checks"); sys.path.insert(0, "translate")
 import common
 common.register_translators()
@@ -14,15 +14,28 @@ for name, fn in common.TRANSLATORS.items():
         print("translator", name, fn())
     except Exception as e:
         print("translator", name, "FAILED:", e)
-rc, out = common.coq_make([])
-print(out[-3000:])
-if rc != 0:
-    print("WARNING: the Coq development did not build completely (rc=%d); individual checks will report it" % rc)
-common.build_model()
-common.build_probe()
-try:
-    common.build_mos(hooks=True)
-except Exception as e:
-    print("mos build with hooks failed:", e)
+def step(what, fn):
+    try:
+        fn()
+        print("setup:", what, "ok")
+    except Exception as e:
+        print("setup:", what, "FAILED:", str(e)[-600:])
+def coq_all():
+    rc, out = common.coq_make([], timeout=3000)
+    print(out[-2500:])
+    if rc != 0:
+        print("WARNING: the Coq development did not build completely (rc=%d); individual checks will report it" % rc)
+step("coq (full .vo build)", coq_all)
+units = ["model"] + sorted(os.path.basename(p)[len("driver_"):-3] for p in glob.glob("extract/driver_*.ml"))
+for u in units:
+    step("model unit " + u, lambda u=u: common.build_model(u))
+step("probe harness", common.build_probe)
+for d in sorted(glob.glob("harness_*")):
+    if os.path.exists(os.path.join(d, "Cargo.toml")):
+        import re
+        m = re.search(r'name\s*=\s*"([^"]+)"', open(os.path.join(d, "Cargo.toml")).read())
+        step("probe " + d, lambda d=d, m=m: common.build_probe(d, m.group(1) if m else "mosprobe"))
+step("mos with hooks", lambda: common.build_mos(hooks=True))
 PY
 echo "setup done"
+exit 0
